@@ -45,6 +45,10 @@ mod get_providers;
 mod get_record;
 mod target_peers;
 
+#[cfg(litep2p_verif)]
+#[path = "../../../../verif/c16_engine.rs"]
+pub(crate) mod verif_c16;
+
 /// Logging target for the file.
 const LOG_TARGET: &str = "litep2p::ipfs::kademlia::query";
 
